@@ -440,6 +440,8 @@ def run(tr):
                 S.bad("C10", f"timer {k} of a{a} fired at t={S.now}, not before t={base + tm['d']} allowed", idx)
             if tm["kind"] == 0 and S.now != base + tm["d"] and x.dead is None:
                 S.bad("C10", f"interval timer {k} of a{a} (period {tm['d']}) fired at t={S.now} instead of t={base + tm['d']}", idx)
+            if tm.get("armed") is not None and S.now < tm["armed"] + tm["d"]:
+                S.bad("C10", f"timer {k} of a{a} (period {tm['d']}) began its sleep at t={tm['armed']} - after its previous submission had returned - and fires at t={S.now}, before a full period has passed", idx)
             if tm["kind"] in (2, 3) and tm["n"] >= 1:
                 S.bad("C10", f"delayed timer {k} of a{a} fired twice", idx)
             if x.dead is not None:
@@ -450,6 +452,10 @@ def run(tr):
                 S.bad("C07", f"timer {k} of a{a}, registered by an earlier incarnation, fired after the restart", idx)
             tm["last"] = S.now
             tm["n"] += 1
+        elif t == TIMERSLEEP:
+            x = A.get(e[1])
+            if x and e[2] in x.timers:
+                x.timers[e[2]]["armed"] = S.now
         elif t == TIMEREND:
             a, k = e[1], e[2]
             x = A.get(a)
